@@ -36,8 +36,9 @@ def hashable(x):
 def make(shape, layout, zero=False):
     from biom import Table
     N, Mm = shape
-    o = ['o%d' % (i + 1) for i in range(N)]
-    s = ['s%d' % (j + 1) for j in range(Mm)]
+    # ids of unequal length, the shorter ones first (a group's ids must not inherit the width of its first member)
+    o = ['o' + 'x' * i + '%d' % (i + 1) for i in range(N)]
+    s = ['s%d' % (j + 1) + 'y' * (2 * j) for j in range(Mm)]
     D = [[((1 + i * Mm + j) * 0.5 if (i + 2 * j) % 4 != 3 else 0.0) for j in range(Mm)] for i in range(N)]
     D[0][0] = 0.0
     if zero:
@@ -84,7 +85,34 @@ def cases(tier, seed):
                     for a in itertools.product(range(len(PATHS)), repeat=n):
                         out.append({'kind': 'otm', 'shape': list(sh), 'layout': lay, 'axis': axis,
                                     'paths': list(a)})
+    # pathway iterators that are not generators: an incomplete pathway ('!') raises IndexError from next() and the
+    # iterator goes on; strict=False skips it, strict=True refuses
+    inc = [q for k in (1, 2, 3) for q in itertools.product('AB!', repeat=k) if '!' in q]
+    for sh in ((2, 3), (3, 2)):
+        for axis in ('sample', 'observation'):
+            n = sh[1] if axis == 'sample' else sh[0]
+            for first in inc:
+                for second in ((), ('A',), ('B', 'A'), ('!', 'B')):
+                    seqs = [list(first), list(second)] + [['A']] * (n - 2)
+                    out.append({'kind': 'otm', 'shape': list(sh), 'layout': 'csr', 'axis': axis, 'seqs': seqs})
     return out
+
+
+class PathIter:
+    def __init__(self, seq):
+        self.seq, self.k = list(seq), 0
+
+    def __iter__(self):
+        return self
+
+    def __next__(self):
+        if self.k >= len(self.seq):
+            raise StopIteration
+        g = self.seq[self.k]
+        self.k += 1
+        if g == '!':
+            raise IndexError('incomplete pathway')
+        return (['root', g], g)
 
 
 def check(case, acc, tmp):
@@ -216,14 +244,32 @@ def check_otm(case, acc):
     t0, m0 = make(case['shape'], case['layout'])
     axis = case['axis']
     ids = m0.ids(axis)
-    paths = {i: PATHS[k] for i, k in zip(ids, case['paths'])}
+    if 'seqs' in case:
+        raw = {i: tuple(q) for i, q in zip(ids, case['seqs'])}
+        paths = {i: tuple(g for g in q if g != '!') for i, q in raw.items()}
+    else:
+        raw = None
+        paths = {i: PATHS[k] for i, k in zip(ids, case['paths'])}
     oth_ids = m0.ids(other(axis))
     if len({p for p in paths.values()}) >= 2:
         acc.nontrivial.add(h64(repr(case)))
 
-    def f(id_, md):
+    def gen(id_, md):
         for g in paths[id_]:
             yield (['root', g], g)
+    f = gen if raw is None else (lambda id_, md: PathIter(raw[id_]))
+    if raw is not None:
+        t, _ = make(case['shape'], case['layout'])
+        acc.trans += 1
+        acc.evals += 1
+        try:
+            t.collapse(f, norm=False, one_to_many=True, strict=True, axis=axis)
+            acc.violation('one-to-many:strict-accepted', 'strict=True accepted the incomplete pathways %r' % (raw,), dict(case))
+        except IndexError:
+            acc.count('clause:otm-strict-refused')
+        except Exception as e:
+            acc.violation('one-to-many:raised:' + type(e).__name__, 'collapse(one_to_many, strict=True) raised %s: %s'
+                          % (type(e).__name__, e), dict(case))
     for mode in ('add', 'divide'):
         t, _ = make(case['shape'], case['layout'])
         acc.trans += 1
@@ -262,6 +308,8 @@ def check_otm(case, acc):
             acc.violation('one-to-many:%s:%s' % (clause, mode), '%r: %s' % (paths, d), dict(case, **kw))
             continue
         acc.count('clause:one-to-many-' + mode)
+        if raw is not None:
+            acc.count('clause:one-to-many-incomplete-skipped')
         acc.outcomes.add(O.content_key(C))
         P.state(acc, 'otm', O.content_key(C))
         if mode == 'divide':
@@ -279,7 +327,8 @@ def run(run):
     P.run_cases(run, cs, check, nchunks=256)
     run.extra['bound'] = {'cases': len(cs), 'labels': [repr(x) for x in LABELS], 'pathway_sequences': len(PATHS)}
     vacuity(run, ['clause:partition', 'clause:collapse', 'clause:collapse-totals', 'clause:one-to-many-add',
-                  'clause:one-to-many-divide', 'clause:one-to-many-totals', 'form:by_id', 'form:by_md',
+                  'clause:one-to-many-divide', 'clause:one-to-many-totals', 'clause:otm-strict-refused',
+                  'clause:one-to-many-incomplete-skipped', 'form:by_id', 'form:by_md',
                   'form:dict_id_to_label', 'form:dict_label_to_ids'])
     run.assumptions += ['collapse labels are strings (None / list labels are mapped to "N" / "A|x"): group labels '
                         'become ids', 'the Path metadata of one-to-many groups is not part of the property',
@@ -287,5 +336,5 @@ def run(run):
 
 
 def replay(case):
-    base = {k: v for k, v in case.items() if k in ('kind', 'shape', 'layout', 'axis', 'lab', 'paths', 'zero')}
+    base = {k: v for k, v in case.items() if k in ('kind', 'shape', 'layout', 'axis', 'lab', 'paths', 'zero', 'seqs')}
     return P.replay_case(check, base)
